@@ -1,7 +1,7 @@
 (* C03 - Address claiming converges to unique addresses and the lower NAME wins.  Statements: Spec/ClaimSpec.v;
-   proofs: Proofs/ClaimProofsA.v (generic network), Proofs/ClaimProofsB.v (library).  Not proved: converges_stmt (see Spec/ClaimSpec.v). *)
-From Coq Require Import ZArith List.
-From N2kV Require Import Model.NodeRxDefs Model.NetDefs Spec.ClaimSpec Proofs.ClaimProofsA Proofs.ClaimProofsB Proofs.ClaimProofsC Proofs.ClaimProofsD Proofs.ClaimProofsE.
+   proofs: Proofs/ClaimProofsA.v .. ClaimProofsG.v. *)
+From Coq Require Import ZArith List Lia.
+From N2kV Require Import Model.PgnClass Model.NodeDefs Model.NodeRxDefs Model.NetDefs Spec.ClaimSpec Proofs.ClaimProofsA Proofs.ClaimProofsB Proofs.ClaimProofsC Proofs.ClaimProofsD Proofs.ClaimProofsE Proofs.ClaimProofsF Proofs.ClaimProofsG Proofs.ClaimProofsH.
 Import ListNotations.
 Local Open Scope Z_scope.
 
@@ -48,6 +48,20 @@ Print Assumptions C03_library_quiescent_unique_partial.
 Theorem C03_ref_react_frames : ref_react_frames_stmt.  Proof. exact ref_react_frames. Qed.
 Print Assumptions C03_ref_react_frames.
 
+(* convergence: every schedule of deliveries is finite (generic; then for library and reference nodes), and where it ends the addresses are unique *)
+Theorem C03_converges : converges_stmt.  Proof. exact converges. Qed.
+Print Assumptions C03_converges.
+Theorem C03_library_converge_hyps : library_converge_hyps_stmt.  Proof. exact library_converge_hyps. Qed.
+Print Assumptions C03_library_converge_hyps.
+Theorem C03_library_converges : library_converges_stmt.  Proof. exact library_converges. Qed.
+Print Assumptions C03_library_converges.
+Theorem C03_library_ends_unique : library_ends_unique_stmt.  Proof. exact library_ends_unique. Qed.
+Print Assumptions C03_library_ends_unique.
+
+(* from claims to frames: the receive loop hands a pending PGN 60928 frame to HandleISOAddressClaim *)
+Theorem C03_claim_frame_dispatch : claim_frame_dispatch_stmt.  Proof. exact claim_frame_dispatch. Qed.
+Print Assumptions C03_claim_frame_dispatch.
+
 (* non-vacuity: the hypotheses of the generic theorems are satisfiable and runs to quiescence exist (two nodes contending for 30:
    the lower NAME keeps it, the other ends without address); the premises of lib_R1..R5 are met by a reachable node of the model *)
 Example C03_generic_nonvacuous : node_hyps Z 2 toy_ndev toy_addr toy_name toy_good toy_react toy_spont toy_allowed /\
@@ -62,3 +76,12 @@ Print Assumptions C03_library_nonvacuous.
 Example C03_instance_nonvacuous : config_ok 2 ex_ndev ex_name /\ initial pkind 2 ex_ndev c_addr (c_good ex_ndev ex_name) ex_w0.
 Proof. exact ex_config. Qed.
 Print Assumptions C03_instance_nonvacuous.
+Example C03_converge_instance_nonvacuous : initial pkind 2 ex_ndev c_addr (c_good2 ex_ndev ex_name) ex_w0.
+Proof.
+  destruct ex_config as [_ (A & B & C)]. split; [|split; assumption]. intros i. split; [apply A|]. destruct i; cbn [ex_w0 st clock_ok]; [change (n_now (rn ex_lib)) with 5000; lia|exact I].
+Qed.
+Print Assumptions C03_converge_instance_nonvacuous.
+Example C03_dispatch_nonvacuous : n_open (rn ex_rx) = 3 /\ is_active_node (rn ex_rx) = true /\ check_known (n_pgn (rn ex_rx)) 60928 = (true, true, false) /\
+  slots_free ex_rx /\ r_q ex_rx = [claim_frame {| cx := 30; cn := 5 |}].
+Proof. exact dispatch_nonvacuous. Qed.
+Print Assumptions C03_dispatch_nonvacuous.
